@@ -204,6 +204,12 @@ func (p *Parser) parseDeclarationList() GrammarType {
 	// IE hack: *color:red;
 	if p.tt == DelimToken && p.data[0] == '*' {
 		tt, data := p.popToken(false)
+		if tt == ErrorToken {
+			// '*' is the last token: report it and let the enclosing block be closed on the next call
+			p.initBuf()
+			p.err, p.errPos = "unexpected ending in declaration", p.l.r.Offset()-len(p.data)
+			return ErrorGrammar
+		}
 		p.tt = tt
 		p.data = append(p.data, data...)
 	}
